@@ -97,10 +97,13 @@ def cc_harness(name, sources, kind="asan", extra="", libs=True, includes_c=False
     flags = SAN_FLAGS if kind == "asan" else PLAIN_FLAGS
     srcs = [s if os.path.isabs(s) else os.path.join(VERIF, "harness", s) for s in sources]
     cmd = ("clang %s -w -DHAVE_CONFIG_H -I%s/src -I%s/src -I%s/include -I%s/include -I%s/harness %s %s -o %s %s -lm"
-           % (flags, d, REPO, d, REPO, VERIF, extra, " ".join(srcs), out,
+           % (flags, d, REPO, d, REPO, VERIF, extra, " ".join(srcs), out + ".new%d" % os.getpid(),
               (d + "/libsndfile.a") if libs else ""))
     with Lock("cc_" + name + kind):
         rc, o, e = run(cmd, timeout=900)
+        if rc == 0:
+            # (checks running side by side share harness binaries: the new file replaces the old one atomically, a run in progress keeps its inode)
+            os.replace(out + ".new%d" % os.getpid(), out)
     if rc != 0:
         raise BuildError("harness %s failed to compile:\n%s" % (name, e[-6000:]))
     return out
